@@ -314,6 +314,10 @@ def call_method(it, recv: VStr, name: str, args, kwargs):
         return VStr(z3.Replace(recv.t, a, b), recv.b) if False else VStr(uf("str.replace_all", STR, STR, STR, STR)(recv.t, a, b), recv.b)
     if name == "format":
         return VStr(P.const("formatted", STR), recv.b)
+    if name == "translate":
+        # str.translate(table): an uninterpreted, total, length-preserving function of the string
+        # (one table per call site in the analysed code; the table's identity is not modelled)
+        return unary_uf(it, "str.translate", recv, lambda s_, r: [z3.Length(r) == z3.Length(s_)])
     if name == "removeprefix":
         pre = _s(args[0], recv)
         n = z3.Length(recv.t)
